@@ -88,7 +88,13 @@ def parse_commands(data):
                 j += 3
                 if j + size > n:
                     raise ProtoError("literal shorter than announced")
-                args.append(data[j:j + size])
+                lit = data[j:j + size]
+                k = 0
+                while k < size:
+                    if lit[k] == 0:
+                        raise ProtoError("NUL inside a literal (RFC 5804 strings are UTF-8 without NUL)")
+                    k += 1
+                args.append(lit)
                 i = j + size
             elif 48 <= c <= 57:
                 j = i
